@@ -39,8 +39,8 @@ ASSUMPTIONS = [
     'rain depth and pairing are taken from the reference classification of '
     'the loaded tables (C02/C03 check them)',
 ]
-SEQ_STEPS = ['grid-0.5', 'grid-1', 'grid-25', 'recession', 'rise',
-             'rise-ref']
+SEQ_STEPS = ['classify-B', 'grid-0.5', 'grid-1', 'grid-25', 'recession',
+             'rise', 'rise-ref']
 COARSE = ('uniform', 2.0, 3600, 4.0)
 CONFIGS = [
     ('uniform', 2.0, 3600, 1.0), ('uniform', 0.5, 1800, 0.5),
